@@ -165,3 +165,54 @@ def c05(prop, tier):
     ck.assumptions = ['each persistence effect is durable once its call returns (the property\'s own assumption); effects are recorded by the simulated block store and cache']
     run_writepath(ck, prop, tier, 3, [1, 2, 3] if not thorough else [1, 2, 3, 4], 10 if not thorough else 60, crash_points=True)
     return ck.finish(level='model_checking')
+
+
+# ---------------------------------------------------------------------------
+# C19: replication status
+
+def st_cfg(name, spec, l, r, elseif, invs='RestOK SingleWriterCount ProgLeMax', props='Monotone'):
+    return (name, '''SPECIFICATION %s
+CONSTANTS L = %d  R = %d  ElseIf = %s
+INVARIANTS %s
+%s
+CHECK_DEADLOCK FALSE
+''' % (spec, l, r, 'TRUE' if elseif else 'FALSE', invs, ('PROPERTIES ' + props) if props else ''))
+
+
+def c19(prop, tier):
+    ck = Check(prop, tier)
+    thorough = tier == 'thorough'
+    ck.rule = ('flows of spec/Status.tla (local writes interleaved with the announcement, per-entry fetch and join of a remote chain) '
+               'realised on a real store with driver-controlled fetch completion; every individual SetMax/SetProgress is recorded by a '
+               'hook and checked for regressions; at rest progress = max within [largest time, entry count]; non-trivial = behaviour '
+               'with a local write between announcement and join')
+    r = vlib.tlc_check('Status.tla', st_cfg('Status.small.cfg', 'Spec', 6 if thorough else 4, 6 if thorough else 4, False), 'C19-small')
+    ck.require_model_ok(r, 'Status arithmetic and flows')
+    m = vlib.tlc_check('SimStatus.tla', st_cfg('Status.mutant.cfg', 'SimSpec', 3, 4, True, invs='ProgLeMax'), 'C19-mutant')
+    ck.add_tlc(m, 'Status with else-if (mutant specification)')
+    bs = []
+    if m.get('violated') == 'Monotone' and m.get('trace'):
+        bs.append({'id': 'elseif-counterexample', 'steps': m['trace']})
+    else:
+        ck.inconclusive.append('mutant specification (else-if) not refuted by TLC: vacuity guard failed')
+    sims, _ = vlib.tlc_simulate('SimStatus.tla', st_cfg('Status.sim.cfg', 'SimSpec', 4, 4, False, props=''), 'C19-sim', 60 if thorough else 14, 14, SEED)
+    bs += sims
+    for b in bs:
+        for st in b['steps']:
+            st['action'] = {'SWrite': 'Write', 'SProgress': 'Progress', 'SJoinAll': 'JoinAll', 'SAnnounce': 'Announce'}.get(st['action'], st['action'])
+        acts = [s['action'] for s in b['steps']]
+        if 'Announce' in acts and 'Write' in acts[acts.index('Announce'):]:
+            ck.distinct.add(vlib.beh_signature(b))
+    inp = {'property': prop, 'seed': SEED, 'r': 4, 'behaviours': bs}
+    res = vlib.run_vh('status', inp, tag='C19')
+    byid = {b['id']: b for b in bs}
+
+    def payload(v):
+        b = byid.get(v['behaviour'])
+        return {'command': 'status', 'input': dict(inp, behaviours=[b] if b else []), 'violation': v}
+    ck.add_harness(res, payload, 'status replay')
+    if not res.get('inconclusive'):
+        ck.traces_validated += res.get('behaviours', 0)
+    log('  status: %d behaviours, %d steps, %d comparisons, %d violations, drift %d' % (
+        res['behaviours'], res['steps'], res['comparisons'], len(res['violations']), res['stats'].get('drift', 0)))
+    return ck.finish()
